@@ -1,4 +1,5 @@
 ENTRY = dict(
+    gen=["parrots"],
     runner="C13", pkg="./cmd/c13", corr=["Corr.C13Corr"], n=dict(quick=1090, thorough=3700), runner_timeout=900,
     rule="every predefined parrot, 11 custom clients (TLSVersMax 1.2 under a supported_versions list {1.3,1.2}; lists with a hole {1.2,1.0}, "
          "{GREASE,1.3,1.1}, {1.3,1.0}; no supported_versions extension with TLSVersMin raised to 1.2 / 1.1; a 1.3 parrot stripped of the "
